@@ -1,5 +1,7 @@
 import PyGqlModel.Json
 import PyGqlModel.Ty
+import PyGqlModel.Token
+import PyGqlModel.SchemaDesc
 open PyGql
 
 namespace Driver
@@ -14,5 +16,71 @@ def tyToJson : Ty → J
   | .named n => .obj [("k", .str "named"), ("n", .str n)]
   | .list t => .obj [("k", .str "list"), ("t", tyToJson t)]
   | .nonNull t => .obj [("k", .str "nonNull"), ("t", tyToJson t)]
+
+
+/-- `{"k": "Name", "s": 0, "e": 3, "v": [102,111,111]}` -/
+def tokOfJson (j : J) : Option Tok := do
+  let k ← TokKind.ofPyName (j.strD "k")
+  pure { kind := k, start := j.natD "s", stop := j.natD "e", value := j.textD "v" }
+
+def tokToJson (t : Tok) : J :=
+  .obj [("k", .str t.kind.pyName), ("s", J.ofNat t.start), ("e", J.ofNat t.stop), ("v", J.ofText t.value)]
+
+
+/-! ### schema descriptions (format of harness/canon_schema.py) -/
+
+def optStr (j : J) (k : String) : Option String := (j.get? k).bind J.asStr?
+def strList (j : J) (k : String) : List String := (j.arrD k).filterMap J.asStr?
+def ofOptStr : Option String → J | some s => .str s | none => .null
+
+def argOfJson (j : J) : ArgD :=
+  { name := j.strD "name", type := tyOfJson (j.getD "type"), hasDefault := j.boolD "has_default",
+    default := j.getD "default_value", desc := optStr j "desc" }
+
+def fieldOfJson (j : J) : FieldD :=
+  { name := j.strD "name", type := tyOfJson (j.getD "type"), args := (j.arrD "args").map argOfJson,
+    deprecated := optStr j "deprecated", desc := optStr j "desc" }
+
+def enumValOfJson (j : J) : EnumValD :=
+  { name := j.strD "name", value := j.getD "value", deprecated := optStr j "deprecated", desc := optStr j "desc" }
+
+def typeOfJson (j : J) : TypeD :=
+  { kind := (Kind.ofString (j.strD "kind")).getD .scalar, name := j.strD "name", desc := optStr j "desc",
+    interfaces := strList j "interfaces", fields := (j.arrD "fields").map fieldOfJson,
+    members := strList j "members", values := (j.arrD "values").map enumValOfJson,
+    inputFields := (j.arrD "input_fields").map argOfJson }
+
+def directiveOfJson (j : J) : DirectiveD :=
+  { name := j.strD "name", locations := strList j "locations", args := (j.arrD "args").map argOfJson,
+    desc := optStr j "desc" }
+
+def schemaOfJson (j : J) : SchemaD :=
+  { types := (j.arrD "types").map typeOfJson, directives := (j.arrD "directives").map directiveOfJson,
+    query := optStr j "query", mutation := optStr j "mutation", subscription := optStr j "subscription" }
+
+def argToJson (a : ArgD) : J :=
+  .obj [("name", .str a.name), ("type", tyToJson a.type), ("has_default", .bool a.hasDefault),
+        ("default_value", a.default), ("desc", ofOptStr a.desc)]
+
+def fieldToJson (f : FieldD) : J :=
+  .obj [("name", .str f.name), ("type", tyToJson f.type), ("args", .arr (f.args.map argToJson)),
+        ("deprecated", ofOptStr f.deprecated), ("desc", ofOptStr f.desc)]
+
+def enumValToJson (v : EnumValD) : J :=
+  .obj [("name", .str v.name), ("value", v.value), ("deprecated", ofOptStr v.deprecated), ("desc", ofOptStr v.desc)]
+
+def typeToJson (t : TypeD) : J :=
+  .obj [("kind", .str t.kind.toString), ("name", .str t.name), ("desc", ofOptStr t.desc),
+        ("interfaces", J.ofStrs t.interfaces), ("fields", .arr (t.fields.map fieldToJson)),
+        ("members", J.ofStrs t.members), ("values", .arr (t.values.map enumValToJson)),
+        ("input_fields", .arr (t.inputFields.map argToJson))]
+
+def directiveToJson (d : DirectiveD) : J :=
+  .obj [("name", .str d.name), ("locations", J.ofStrs d.locations), ("args", .arr (d.args.map argToJson)),
+        ("desc", ofOptStr d.desc)]
+
+def schemaToJson (s : SchemaD) : J :=
+  .obj [("types", .arr (s.types.map typeToJson)), ("directives", .arr (s.directives.map directiveToJson)),
+        ("query", ofOptStr s.query), ("mutation", ofOptStr s.mutation), ("subscription", ofOptStr s.subscription)]
 
 end Driver
